@@ -669,8 +669,8 @@ impl Kernel {
         use std::fmt::Write;
         let _ = writeln!(
             out,
-            "kernel addrs={:?} isn={:#x} outbound={:?}",
-            self.addresses, self.tcp_isn, self.outbound
+            "kernel addrs={:?} isn={:#x} outbound={:?} time_wait={:?}",
+            self.addresses, self.tcp_isn, self.outbound, self.time_wait
         );
         self.sockets.verif_dump(out);
     }
